@@ -337,8 +337,8 @@ static J shrink_plan(Property &P, J plan, std::string const &cls, int &execs) {
 // A listed finding: identified by oracle(s), a signature prefix and tokens that the
 // feature summary of the *minimised* failing plan must contain.
 struct Known {
-  std::string property, id, what, signature_prefix;
-  std::vector<std::string> oracles, features_all;
+  std::string property, id, what;
+  std::vector<std::string> oracles, features_all, signature_prefixes;
   J plan;
 };
 static std::vector<Known> load_known(std::string const &prop) {
@@ -351,7 +351,8 @@ static std::vector<Known> load_known(std::string const &prop) {
     if (f.at("property").as_str() != prop) continue;
     Known k;
     k.property = prop; k.id = f.at("id").as_str(); k.what = f.at("what").as_str();
-    k.signature_prefix = f.at("signature_prefix").as_str();
+    if (f.at("signature_prefix").t == J::STR) k.signature_prefixes.push_back(f.at("signature_prefix").as_str());
+    for (auto const &o : f.at("signature_prefix").a) k.signature_prefixes.push_back(o.as_str());
     if (f.at("oracle").t == J::STR) k.oracles.push_back(f.at("oracle").as_str());
     for (auto const &o : f.at("oracle").a) k.oracles.push_back(o.as_str());
     for (auto const &o : f.at("features_all").a) k.features_all.push_back(o.as_str());
@@ -362,7 +363,11 @@ static std::vector<Known> load_known(std::string const &prop) {
 }
 static bool known_matches(Known const &k, RunResult const &r) {
   if (std::find(k.oracles.begin(), k.oracles.end(), r.oracle) == k.oracles.end()) return false;
-  if (r.signature.compare(0, k.signature_prefix.size(), k.signature_prefix) != 0) return false;
+  {
+    bool any = k.signature_prefixes.empty();
+    for (auto const &p : k.signature_prefixes) if (r.signature.compare(0, p.size(), p) == 0) any = true;
+    if (!any) return false;
+  }
   // feature tokens are separated by ',' and '+'
   std::vector<std::string> toks;
   std::string cur;
